@@ -136,9 +136,56 @@ class Ctx:
                 call(G.add_edges, [(a, u, 2), (a, b, 1)] if a != b else [(a, a, 1)])
         return G
 
+    def derived(self, G, degs, seed):
+        """the same chip counts, but on an object that did not come straight from the constructor:
+        results of arithmetic (negation, scalar multiples, sums, differences), of Laplacian.apply
+        with the zero script, or of moves that cancel - what a caller's divisor usually is"""
+        r = _r.Random(seed)
+        n = self.n
+
+        def mk(ds):
+            return CFDivisor(G, [(self.names[i], ds[i]) for i in range(n)])
+        how = r.choice(["negneg", "neg", "rmul", "rmul", "sum", "diff", "apply0", "moves", "transfer", "scale1"])
+        if how == "negneg":
+            return -(-mk(degs))
+        if how == "neg":
+            return -mk([-x for x in degs])
+        if how == "scale1":
+            return 1 * mk(degs)
+        if how == "rmul":
+            ks = [k for k in (2, 3, 5, -2, -3) if all(x % k == 0 for x in degs)] or [-1]
+            k = r.choice(ks)
+            return k * mk([x // k for x in degs])
+        if how in ("sum", "diff"):
+            a = [r.randint(-3, 3) for _ in range(n)]
+            if how == "sum":
+                return mk(a) + mk([d - x for d, x in zip(degs, a)])
+            return mk([d + x for d, x in zip(degs, a)]) - mk(a)
+        if how == "apply0":
+            return CFLaplacian(G).apply(mk(degs), CFiringScript(G))
+        D = mk(degs)
+        if how == "moves" and n >= 1:
+            v = r.choice(self.names)
+            D.lending_move(v)
+            D.borrowing_move(v)
+        elif how == "transfer" and n >= 2:
+            a, b = r.sample(self.names, 2)
+            k = r.randint(1, 5)
+            D.chip_transfer(a, b, k)
+            D.chip_transfer(b, a, k)
+        return D
+
     def divisor(self, G, degs, order=None):
         pairs = [(self.names[i], degs[i]) for i in (order if order is not None else range(self.n))]
-        D = CFDivisor(G, pairs)
+        D = None
+        via = self.scn.get("via")
+        if via is not None and order is None:
+            self._via_count = getattr(self, "_via_count", 0) + 1
+            okd, D = call(self.derived, G, degs, via + self._via_count)
+            if not okd or not isinstance(D, CFDivisor):
+                D = None
+        if D is None:
+            D = CFDivisor(G, pairs)
         seed = self.scn.get("poke")
         if seed is not None and self.names:
             # refused requests against the divisor about to be used (C20): unknown destination /
@@ -266,6 +313,24 @@ def op_ewd(scn):
     out["arg"] = c.degs(D)
     out["argtotal"] = D.total_degree
     out["graph"] = c.gdigest(G)
+    if scn.get("viz") and c.n >= 2 and WARM.get("phase") != 1:
+        # ... and independent of the live graph: edit it after the run (thicken a pair, join a new
+        # one) and look at what the recorded steps hold
+        def snaps():
+            res = []
+            for h in viz.history:
+                for key in ("divisor", "orientation"):
+                    o = h.get(key)
+                    if o is not None:
+                        res.append(digest_graph(o.graph, c.names))
+            return res
+        ok1, before = call(snaps)
+        a, b = c.names[0], c.names[-1]
+        call(G.add_edge, a, b, 1)
+        call(G.add_edge, c.names[len(c.names) // 2], b, 2)
+        ok2, after = call(snaps)
+        if not (ok1 and ok2) or before != after or any(x != out["graph"] for x in before):
+            out["trace"] = "GRAPH-ALIASED"
     return out
 
 
@@ -316,7 +381,16 @@ def op_graph_hist(scn):
             ok, H = call(G.remove_vertex, c.name(o[1]))
             if ok:
                 rest = [nm for i, nm in enumerate(c.names) if i != o[1]]
+                # the removed vertex is unknown to the induced graph: queries and insertions naming
+                # it are refused (and leave nothing behind: the digest is taken afterwards)
+                gone = []
+                for probe in (lambda: H.get_valence(c.name(o[1])),
+                              lambda: H.add_edge(c.name(o[1]), rest[0], 1) if rest else H.get_valence(c.name(o[1])),
+                              lambda: H.add_edge(rest[-1], c.name(o[1]), 2) if rest else H.get_valence(c.name(o[1]))):
+                    okp, val = call(probe)
+                    gone.append("ERR" if not okp else {"answered": tag(val) if not isinstance(val, (int, type(None))) else val})
                 r = digest_graph(H, rest)
+                r["gone"] = gone
                 # the induced graph is an object of its own: edit it (the original's digest is
                 # taken below, after this edit) and keep it to see that later edits of the
                 # original do not reach it
@@ -446,6 +520,14 @@ def op_div_arith(scn):
     out["chip"] = d(call(chipfiring.chip, G, c.name(scn["chipv"])))
     from chipfiring.CFDivisor import zero
     out["zero"] = d(call(zero, G))
+    # the helpers hand out fresh objects: whatever is done to one result, asking again gives the
+    # unit / the zero divisor
+    for key, mk in (("chip2", lambda: chipfiring.chip(G, c.name(scn["chipv"]))), ("zero2", lambda: zero(G))):
+        okz, Z = call(mk)
+        if okz and c.n:
+            call(Z.lending_move, c.names[0])
+            call(Z.chip_transfer, c.names[0], c.names[-1], 2)
+        out[key] = d(call(mk))
     # results must be fresh objects: disturbing a result must not disturb an operand
     aliased = False
     for mk in (lambda: A + B, lambda: A - B, lambda: -A, lambda: k * A, lambda: B + A):
